@@ -252,7 +252,7 @@ theorem inv_deliverO2P (s : St) (h : Inv s) : Inv (deliverO2P s).2 := by
         simp only [cnt_recvAll, refsO, MsgO.refs] at this ⊢
         omega
       · exact backOk_mono s.px _ s.p2o (by intro k; simp only [cnt_recvAll]; omega) h.backs
-    | exc =>
+    | exc kept =>
       simp only [handleO]
       refine ⟨?_, h.pxPos, h.dels, h.backs⟩
       intro k
@@ -408,7 +408,11 @@ theorem step_no_keyError (s : St) (op : Op) (h : Inv s) : (step s op).1 ≠ .key
 theorem appStep_base (a : App) (op : AOp) : ∃ ops, (appStep a op).2.s = run a.s ops := by
   cases op with
   | send ks => exact ⟨[.send ks], rfl⟩
-  | fetch ks => exact ⟨[.fetch ks], rfl⟩
+  | fetch ks =>
+    simp only [appStep]
+    split
+    · exact ⟨[], rfl⟩
+    · exact ⟨[.fetch ks], rfl⟩
   | back k e =>
     simp only [appStep]
     split
@@ -432,6 +436,13 @@ theorem appStep_base (a : App) (op : AOp) : ∃ ops, (appStep a op).2.s = run a.
     · split
       · exact ⟨[], rfl⟩
       · exact ⟨[], rfl⟩
+  | expire j =>
+    simp only [appStep]
+    split
+    · exact ⟨[], rfl⟩
+    · split
+      · exact ⟨[], rfl⟩
+      · exact ⟨[], rfl⟩
   | deliverO2P =>
     simp only [appStep]
     split
@@ -439,9 +450,17 @@ theorem appStep_base (a : App) (op : AOp) : ∃ ops, (appStep a op).2.s = run a.
     · split
       · exact ⟨[], rfl⟩
       · exact ⟨[.deliverO2P], rfl⟩
-      · exact ⟨[.deliverO2P], rfl⟩
+      · rename_i ids _ _
+        split
+        · exact ⟨.deliverO2P :: (dying ids a.held a.results).map .finalize, rfl⟩
+        · exact ⟨[.deliverO2P], rfl⟩
+        · exact ⟨[], rfl⟩
       · exact ⟨[.deliverO2P], rfl⟩
       · exact ⟨[], rfl⟩
+      · split
+        · exact ⟨[.deliverO2P], rfl⟩
+        · exact ⟨[.deliverO2P], rfl⟩
+        · exact ⟨[], rfl⟩
       · exact ⟨[.deliverO2P], rfl⟩
   | deliverP2O => exact ⟨[.deliverP2O], rfl⟩
   | close => exact ⟨[.close], rfl⟩
